@@ -399,7 +399,7 @@ func c06QRDims(r *Rng) (int, int) {
 }
 
 func c06Matrices(c *Ctx) {
-	nQR := c.Pick(2500, 150000)
+	nQR := c.Pick(6000, 150000)
 	c.Parallel(nQR, 16, func(i int, r *Rng) {
 		var m *gozxing.BitMatrix
 		class := "random"
@@ -476,7 +476,7 @@ func c06Matrices(c *Ctx) {
 			})
 	})
 
-	nDM := c.Pick(2500, 150000)
+	nDM := c.Pick(6000, 150000)
 	c.Parallel(nDM, 16, func(i int, r *Rng) {
 		var m *gozxing.BitMatrix
 		class := "random"
@@ -537,7 +537,7 @@ func c06Matrices(c *Ctx) {
 			})
 	})
 
-	nAz := c.Pick(2500, 150000)
+	nAz := c.Pick(6000, 150000)
 	c.Parallel(nAz, 16, func(i int, r *Rng) {
 		compact := r.Chance(0.4)
 		layers := r.Range(1, 32)
